@@ -96,7 +96,7 @@ SPECS['C03'] = dict(
     rule='Trees: DEC = cbor_load of every E2 (<=2 nodes quick / <=3 thorough) and E2p encoding; PROG = byte-coded construction programs through every cbor_new_*/cbor_build_* (all 1- and 2-byte programs exhaustively, seeded programs of 2..49 bytes); DEEP = API-built nests up to the decoder limit. Oracle: the tree observed through getters equals what the construction calls are documented to build; cbor_serialize_alloc bytes == reference RFC 8949 encoding of the observed tree (stored widths, shortest heads, break-terminated indefinites, canonical NaN); cbor_load of those bytes consumes all of them and gives an equal tree (NaN==NaN); serializing that tree gives the identical bytes; nothing left allocated. Non-trivial = >=3 nodes, or an indefinite item / NaN / width-boundary value / shared node; distinct by construction program or input bytes. PROG trees include chunks that receive their payload after being attached and simple values 0..19 / 32..255 (serialized per RFC; no load-back, libcbor\'s decoder does not accept them); two short-buffer cbor_serialize calls (one byte short, half) precede every judged serialization.',
     assumptions=TREE_ASSUME,
     level_text='Exploration: exhaustive over the enumerated encodings and all 1- and 2-byte construction programs; seeded sample of longer programs.',
-    level_note='Trusts the reference encoder; API-built trees are limited to what treeprog.hpp can express (no cycles, no unset ints/floats, simple values 20..23 only — the preconditions stated in the property).')
+    level_note='Trusts the reference encoder; API-built trees are limited to what treeprog.hpp can express (no cycles, no unset ints/floats, no simple values 24..31 — the preconditions stated in the property; simple values 0..19 and 32..255 are serialized but not loaded back).')
 
 SPECS['C07'] = dict(
     jobs=tree_jobs, level='exploration', technique='exhaustive buffer-size sweep (n = 0..size+2, exact heap blocks with sentinel fill under ASan) over generated trees; encoder x value x n sweep',
